@@ -25,6 +25,9 @@ def _immutable_literal(e):
         return _immutable_literal(e.operand)
     if isinstance(e, ast.Tuple):
         return all(_immutable_literal(x) for x in e.elts)
+    # operator.methodcaller('m') / itemgetter(k) / attrgetter('a') on constants: an immutable callable
+    if isinstance(e, ast.Call) and ast.unparse(e.func).split(".")[-1] in ("methodcaller", "itemgetter", "attrgetter") and not e.keywords and e.args and all(isinstance(a, ast.Constant) for a in e.args):
+        return True
     # a function of the math module on constants (`math.log10(2)`): a number fixed at import time
     if isinstance(e, ast.Call) and isinstance(e.func, ast.Attribute) and isinstance(e.func.value, ast.Name) and e.func.value.id == "math" and not e.keywords and e.args and all(isinstance(a, ast.Constant) and isinstance(a.value, (int, float)) and not isinstance(a.value, bool) for a in e.args):
         return True
